@@ -84,6 +84,10 @@ func Generate(ctx context.Context, wd string, env []string, patterns []string, o
 	if opts == nil {
 		opts = &GenerateOptions{}
 	}
+	if strings.ContainsAny(opts.Tags, "\n\r") {
+		// The tags are written into the go:generate comment of every file.
+		return nil, []error{fmt.Errorf("build tags %q must not contain a line break", opts.Tags)}
+	}
 	if name := opts.PrefixOutputFile + "wire_gen.go"; filepath.Base(name) != name || strings.ContainsAny(name, `/\`) {
 		// The output belongs in the directory of its package.
 		return nil, []error{fmt.Errorf("output file prefix %q must not contain a path separator", opts.PrefixOutputFile)}
